@@ -91,6 +91,51 @@ def St.run (s : St) : List Ev → St
   | .step i :: r => (stepAt s i).run r
   | .panic i :: r => (panicAt s i).run r
 
+/-! ### observed lock traces (the hook `cteenergymodel_verif` records every acquisition and release of the three tables) -/
+
+/-- one observed event: thread `thread` acquired / released a table -/
+structure Obs where
+  thread : Nat
+  act : Act
+  deriving DecidableEq, Repr
+
+/-- thread `i` runs the pure steps that precede its next lock action -/
+def runWork : Nat → St → Nat → St
+  | 0, s, _ => s
+  | fuel + 1, s, i =>
+    match s.threads[i]? with
+    | some th =>
+      match th.rest with
+      | .work :: _ => runWork fuel (stepAt s i) i
+      | _ => s
+    | none => s
+
+/-- replay one observation on the machine: after its pure steps, the thread's next action must be the observed one, and the
+machine must allow it (a lock is granted only when nobody else holds the table) -/
+def replayOne (fuel : Nat) (s : St) (o : Obs) : Option St :=
+  let s1 := runWork fuel s o.thread
+  match s1.threads[o.thread]? with
+  | some th =>
+    match th.rest with
+    | a :: _ =>
+      if a = o.act && enabled (s1.threads.eraseIdx o.thread) th then some (stepAt s1 o.thread) else none
+    | [] => none
+  | none => none
+
+/-- replay a whole trace; `none` when the machine cannot produce it -/
+def replay (fuel : Nat) (s : St) : List Obs → Option St
+  | [] => some s
+  | o :: r => (replayOne fuel s o).bind (fun s1 => replay fuel s1 r)
+
+/-- every thread has run its program to the end (up to trailing pure steps) and holds nothing -/
+def St.finished (s : St) : Bool :=
+  s.threads.all (fun th => th.held.isNone && th.rest.all (fun a => a == .work))
+
+/-- `n` threads that each compute the indicators `k` times in a row -/
+def indicatorThreads (n k : Nat) : St :=
+  { threads := List.replicate n { held := none, rest := (List.replicate k indicatorsProg).flatten },
+    poisoned := fun _ => false, content := fun _ => 0 }
+
 /-- a locked computation fails when its table is poisoned (`lock().unwrap()`) -/
 def canLock (s : St) (t : Tbl) : Bool := !s.poisoned t
 
